@@ -21,6 +21,16 @@ func reqParamEntries(w *World) []*ssa.Function {
 	return out
 }
 
+// firstTokenNorm rewrites strings.Cut(x, sep)#0 (the part before the first separator) as strings.Split(x, sep)[0]:
+// the same string for every x.
+func firstTokenNorm(ex string) string {
+	const pre = "call<strings.Cut>("
+	if !strings.HasPrefix(ex, pre) || !strings.HasSuffix(ex, ")#0") {
+		return ex
+	}
+	return "call<strings.Split>(" + strings.TrimSuffix(strings.TrimPrefix(ex, pre), ")#0") + ")[const(0)]"
+}
+
 func runPanicRules(c *Ctx, rule string, entries []*ssa.Function, floor int) {
 	w := c.w
 	fns := w.ReachableRepo(entries, true)
@@ -103,7 +113,7 @@ func c14Fields(c *Ctx) {
 	}
 	for fld, exp := range want {
 		vs := fs[fld]
-		ok := len(vs) == 1 && w.Expr(vs[0]) == exp
+		ok := len(vs) == 1 && firstTokenNorm(w.Expr(vs[0])) == exp
 		got := "unset"
 		if len(vs) > 0 {
 			got = shortName(w.Expr(vs[0]))
@@ -139,7 +149,7 @@ func c14Fields(c *Ctx) {
 			return false
 		}
 		cv, isCall := strip(y).(*ssa.Call)
-		return isCall && calleeName(cv) == "net.ParseIP" && w.Expr(cv.Call.Args[0]) == want["ClientIP"]
+		return isCall && calleeName(cv) == "net.ParseIP" && firstTokenNorm(w.Expr(cv.Call.Args[0])) == want["ClientIP"]
 	})
 	c.Check(okIP, "R1.fields", "NewReqParam|client IP syntactically valid", w.Pos(lit.Pos()), "must-fact net.ParseIP(clientIP) != nil", "parameters can be built with a client IP that did not parse")
 	for _, call := range callsIn(fn) {
